@@ -232,7 +232,7 @@ def _apply(it, self, node):
     raise AssertionError("unexpected node")
 
 
-_Prep.apply = lambda self, node: None
+_Prep.apply = getattr(_Prep, "apply", lambda self, node: None)  # contracts/c02_frontend.py defines it first
 I.register_model(_Prep.apply, _apply)
 
 
